@@ -20,7 +20,7 @@ open Dcg.Py.Chars Dcg.Py.Ident Dcg.Model.Names Dcg.Proofs.Names Dcg.Gen.Unicode
 
 /-- FULL STRENGTH, all strings, all option vectors with a legal prefix, all three resolvers:
 `get_valid_name` returns after at most `|excludes| + 2` evaluations of the loop condition
-(the enum resolver adds `mro` to the excludes first). -/
+(the enum resolver adds its own reserved names to the excludes first). -/
 theorem retry_terminates (E : Env) (k : Kind) (cfg : Cfg) (name : List Char) (excl : List (List Char))
     (ign uc : Bool) (hp : PrefixOK cfg) (hE : CaseOK E) :
     getValidName E k cfg name excl ign uc ≠ .outOfFuel := by
@@ -84,11 +84,13 @@ theorem retry_diverges_without_prefixOK (fuel : Nat) :
 /-! ### legality of the result -/
 
 /-- FULL STRENGTH: whatever `get_valid_name` returns is an identifier, is not a keyword, is none of
-the excluded names, and (enum resolver) is not `mro`. -/
+the excluded names, and (enum resolver) is none of the names the resolver reserves by itself
+(`Dcg.Gen.EnumSites.resolverExcludes`, read off `EnumFieldNameResolver.get_valid_name`). -/
 theorem result_legal (E : Env) (k : Kind) (cfg : Cfg) (name : List Char) (excl : List (List Char))
     (ign uc : Bool) (hp : PrefixOK cfg) (hE : CaseOK E) (r : List Char)
     (h : getValidName E k cfg name excl ign uc = .ok r) :
-    isIdentifier r = true ∧ isKeyword r = false ∧ r ∉ excl ∧ (k = .enum → r ≠ mro) := by
+    isIdentifier r = true ∧ isKeyword r = false ∧ r ∉ excl ∧
+      (k = .enum → ∀ x ∈ Dcg.Gen.EnumSites.resolverExcludes, r ≠ x) := by
   obtain ⟨s, hne, hs, hb, hr⟩ := result_shape h
   have hgood := good_body hp hE k ign hne hs
   simp only [bad, Bool.or_eq_false_iff, Bool.not_eq_eq_eq_not, Bool.not_false] at hb
@@ -107,12 +109,33 @@ theorem result_legal (E : Env) (k : Kind) (cfg : Cfg) (name : List Char) (excl :
   · intro hin
     apply hnotin
     unfold effExcl; split
-    · exact List.mem_cons_of_mem _ hin
+    · exact List.mem_append_right _ hin
     · exact hin
-  · intro hk heq
+  · intro hk x hx heq
     apply hnotin
     subst hk heq
-    simp [effExcl]
+    simp only [effExcl, if_true]
+    exact List.mem_append_left _ hx
+
+/-- FULL STRENGTH for enum members, relative to the call: when `mro` (the one public attribute of `enum.Enum` a
+member name can collide with) is reserved for the call — by the resolver itself (`resolverExcludes`) or by the
+excludes the caller passes — the name returned by the enum resolver is not `mro`. That the hypothesis holds at
+EVERY call site of the enum resolver is the obligation `enum_call_sites_reviewed` of Props/C09 (the initial
+excludes of each caller are read off the source). -/
+theorem enum_member_never_mro (E : Env) (cfg : Cfg) (name : List Char) (excl : List (List Char))
+    (ign uc : Bool) (hp : PrefixOK cfg) (hE : CaseOK E) (r : List Char)
+    (hres : mro ∈ Dcg.Gen.EnumSites.resolverExcludes ++ excl)
+    (h : getValidName E .enum cfg name excl ign uc = .ok r) : r ≠ mro := by
+  have hl := result_legal E .enum cfg name excl ign uc hp hE r h
+  rcases List.mem_append.mp hres with hm | hm
+  · exact hl.2.2.2 rfl mro hm
+  · intro heq
+    exact hl.2.2.1 (heq ▸ hm)
+
+/-- non-vacuity: `MRO` under snake case sanitises to `mro`; with `mro` reserved for the call it gets a number -/
+example : mro ∈ Dcg.Gen.EnumSites.resolverExcludes ++ [mro] ∧
+    getValidName pyEnv .enum { snakeCase := true } ['M', 'R', 'O'] [mro] false false = .ok ['m', 'r', 'o', '_', '1'] := by
+  decide +kernel
 
 /-- non-vacuity and a sanity check on a nasty input: `"___"` with `remove_special_field_name_prefix`
 (formerly defect D2: the code returned `_1`) -/
